@@ -1,6 +1,15 @@
 // ---- later stages: predicates that are (so far) only established by assumed stub contracts ----
 pub uninterp spec fn loaded(layout: LayoutMetadata, dir: Seq<char>, m: Map<String, HashMap<KeyId, Metablock>>) -> bool;
 pub uninterp spec fn sublayouts_ok(layout: LayoutMetadata, input: Map<String, HashMap<KeyId, Metablock>>, dir: Seq<char>, out: Map<String, HashMap<KeyId, LinkMetadata>>) -> bool;
+// assumed: KeyId's derived Ord is a total order on key-id texts
+pub uninterp spec fn kid_le(a: KeyId, b: KeyId) -> bool;
+#[verifier::external_body]
+pub proof fn fact_kid_order()
+    ensures forall|a: KeyId, b: KeyId| #![trigger kid_le(a, b)] kid_le(a, b) || kid_le(b, a),
+            forall|a: KeyId, b: KeyId| #![trigger kid_le(a, b), kid_le(b, a)] kid_le(a, b) && kid_le(b, a) ==> a == b,
+{}
+pub open spec fn is_min_kid(s: Set<KeyId>, k: KeyId) -> bool { s.contains(k) && forall|j: KeyId| s.contains(j) ==> kid_le(k, j) }
+pub open spec fn min_kid(s: Set<KeyId>) -> KeyId { choose|k: KeyId| is_min_kid(s, k) }
 // the representative link of every step is one of that step's verified links
 pub open spec fn reduced_ok(lf: Map<String, HashMap<KeyId, LinkMetadata>>, red: Map<String, LinkMetadata>) -> bool {
     red.dom() == lf.dom()
